@@ -398,11 +398,24 @@ impl<'a> OpGen<'a> {
             .map(|&i| {
                 let base = rng.pick(&pool).clone();
                 let ty = wrap_random(rng, &base, 2);
-                let default = if !ty.has_list() && rng.chance(25) {
-                    match base.as_str() {
-                        "Int" => Some("42".to_string()),
-                        "String" => Some("\"hello\"".to_string()),
-                        "Boolean" => Some("true".to_string()),
+                // default values of every literal kind (an Int literal is also a valid Float / ID, a single value a
+                // valid one-element list)
+                let default = if rng.chance(25) {
+                    let leaf: Option<String> = match base.as_str() {
+                        "Int" => Some(rng.pick(&["42", "-7", "0"]).to_string()),
+                        "Float" => Some(rng.pick(&["1.5", "3", "-0.25"]).to_string()),
+                        "String" => Some(rng.pick(&["\"hello\"", "\"\"", "\"he said \\\"hi\\\" \\\\ \\u00e9\""]).to_string()),
+                        "Boolean" => Some(rng.pick(&["true", "false"]).to_string()),
+                        "ID" => Some(rng.pick(&["\"id-1\"", "7"]).to_string()),
+                        other => match self.s.get(other) {
+                            Some(AType::Enum { values, .. }) => values.first().cloned(),
+                            _ => None,
+                        },
+                    };
+                    match (leaf, ty.list_depth()) {
+                        (Some(l), 0) => Some(l),
+                        (Some(l), 1) => Some(if rng.chance(50) { format!("[{}, {}]", l, l) } else if rng.chance(50) { "[]".to_string() } else { l }),
+                        (Some(l), 2) => Some(format!("[[{}], []]", l)),
                         _ => None,
                     }
                 } else {
